@@ -112,6 +112,7 @@ const (
 )
 
 func (j *udpJob) transition(from, to uint8) {
+	verifTraceUDP(verifUDPTransition, j, from, to, nil)
 	if j.state != from {
 		panic("server: udp job ownership violated")
 	}
@@ -161,8 +162,10 @@ func (j *udpJob) Write(b []byte) (int, error) {
 			copy(j.tx[:], b)
 		}
 		j.txLen = len(b)
+		verifTraceUDP(verifUDPStage, j, j.state, j.state, nil)
 		return len(b), nil
 	}
+	verifTraceUDP(verifUDPSendNow, j, j.state, j.state, b)
 	if j.pktinfoLen > 0 {
 		n, _, err := j.pc.WriteMsgUDPAddrPort(b, j.pktinfo[:j.pktinfoLen], j.raddr)
 		return n, err
@@ -178,6 +181,7 @@ func (j *udpJob) sendDirect() {
 	if j.txLen == 0 {
 		return
 	}
+	verifTraceUDP(verifUDPSendDirect, j, j.state, j.state, nil)
 	var err error
 	if j.pktinfoLen > 0 {
 		_, _, err = j.pc.WriteMsgUDPAddrPort(j.tx[:j.txLen], j.pktinfo[:j.pktinfoLen], j.raddr)
@@ -374,6 +378,7 @@ func (e *udpEngine) take(shard int) *udpJob {
 	}
 	if j := e.cache.get(shard); j != nil {
 		j.slabShard = uint8(shard & (slabShardCount - 1))
+		verifTraceUDP(verifUDPTake, j, j.state, j.state, nil)
 		return j
 	}
 	return &udpJob{engine: e, slabShard: uint8(shard & (slabShardCount - 1))}
@@ -519,6 +524,7 @@ func (e *udpEngine) enqueue(j *udpJob) {
 // barrier could close over it.
 func (e *udpEngine) enqueueCounted(j *udpJob) {
 	j.state = udpJobQueued
+	verifTraceUDP(verifUDPQueued, j, udpJobReading, udpJobQueued, nil)
 
 	// The pool first, while it can keep up. A served hit is microseconds,
 	// so the queue is empty in the ordinary case and the reply rides the
@@ -543,6 +549,7 @@ func (e *udpEngine) enqueueCounted(j *udpJob) {
 	// which is the memory bound the design already states.
 	udpOverflowServed.Inc()
 	e.overflowG.Add(1)
+	verifTraceUDP(verifUDPOverflow, j, udpJobQueued, udpJobQueued, nil)
 	go e.serveOverflow(j)
 }
 
@@ -584,6 +591,7 @@ func (j *udpJob) release(from uint8) {
 	// lease is released after the slab is parked — count down earlier
 	// and the cap could admit a query the cache cannot yet serve.
 	e := j.engine
+	verifTraceUDP(verifUDPRelease, j, from, udpJobFree, nil)
 	e.cache.put(int(j.slabShard), j)
 	e.leased.Add(-1)
 
